@@ -1,3 +1,104 @@
+//! C03 - Sync gives a consistent snapshot, then a gap-free tail.
+//! Engine E1 over the agent-system harness: one remote streams updates (commands and handler
+//! originated), one or two others sync at every position of that stream, with and without a
+//! preceding link; value and map lanes.
+
+use asys::grid::{grid, replay, run_grid, GridSpec};
+use asys::mapq;
+use asys::oracle::{check_c01, check_c04, check_map, check_value_sync};
+use asys::scripts::*;
+use asys::world::{set_checker, Mode, Observation, Step};
+use vcommon::Ctx;
+
+fn checker(obs: &Observation) -> Vec<(String, String)> {
+    let mut v = check_map(obs, true);
+    v.extend(check_value_sync(obs));
+    v.extend(check_c01(obs));
+    // frame shape linked events* synced, nothing fabricated
+    v.extend(check_c04(obs));
+    v
+}
+
+fn upd(k: i32, v: i32) -> String {
+    format!("@upd{{k:{},v:{}}}", k, v)
+}
+
+fn scripts(quick: bool) -> Vec<(Vec<(usize, Step)>, usize)> {
+    let mut out: Vec<(Vec<(usize, Step)>, usize)> = vec![];
+    let a1 = upd(1, 1);
+    let a2 = upd(2, 2);
+    let a3 = upd(1, 3);
+    let stream_map = vec![link("m"), act(&[&a1, &a2]), act(&[&a3, "@rem(2)"]), cmd("m", "@update(key:3) 4")];
+    let pending = vec![act(&[&a1, &a2, "@rem(1)"]), act(&[&a3])];
+    let clearing = vec![link("m"), act(&[&a1, &a2]), act(&["@clr", &a3])];
+    let stream_val = vec![link("v"), cmd("v", "1"), act(&["@setv(2)", "@setv(3)"]), cmd("v", "4")];
+    let syncers: Vec<Vec<Step>> = vec![vec![sync("m")], vec![link("m"), sync("m")], vec![sync("m"), sync("m")]];
+    let vsyncers: Vec<Vec<Step>> = vec![vec![sync("v")], vec![link("v"), sync("v")]];
+    let mut push_all = |a: &Vec<Step>, b: &Vec<Step>, every: usize| {
+        for (i, s) in interleavings(&[a.clone(), b.clone()]).into_iter().enumerate() {
+            if i % every == 0 {
+                out.push((s, 2));
+            }
+        }
+    };
+    let e = if quick { 2 } else { 1 };
+    for s in &syncers {
+        push_all(&stream_map, s, e);
+        push_all(&pending, s, 1);
+        push_all(&clearing, s, e);
+    }
+    for s in &vsyncers {
+        push_all(&stream_val, s, e);
+    }
+    // sync without link while several lane events are still queued (lane -> runtime channel small)
+    let many = vec![act(&[&upd(1, 1), &upd(2, 2), &upd(3, 3), &upd(4, 4)])];
+    for s in interleavings(&[many.clone(), vec![sync("m")]]) {
+        out.push((s, 2));
+    }
+    // two concurrent syncers
+    out.push((sequential(&[vec![link("m"), act(&[&a1, &a2])], vec![sync("m")], vec![sync("m")]]), 3));
+    for (i, s) in interleavings(&[pending.clone(), vec![sync("m")], vec![sync("m")]]).into_iter().enumerate() {
+        if !quick || i % 3 == 0 {
+            out.push((s, 3));
+        }
+    }
+    out
+}
+
 fn main() {
-    vcommon::machinery_failure("C03: engine not built yet");
+    let ctx = Ctx::from_env("C03");
+    set_checker(checker);
+    if let Some(r) = ctx.replay_request() {
+        if r["leg"].as_str().map(|l| l.starts_with("mapq")).unwrap_or(false) {
+            mapq::replay(&ctx, r);
+        } else {
+            replay(&ctx, r);
+        }
+        ctx.finish("model_checking", "replay");
+    }
+    let quick = ctx.quick();
+    mapq::run_sync(&ctx);
+    let sc = scripts(quick);
+    let modes = [Mode::Eager, Mode::Burst, Mode::SlowRead];
+    // the scripts with a tiny lane <-> runtime channel first (lane events stay queued inside the lane)
+    let mut cfgs = vec![];
+    for mut c in grid(&sc, &[4096], &[2, 64], &modes, &[0]) {
+        c.lane_buf = 16;
+        cfgs.push(c);
+    }
+    cfgs.extend(grid(&sc, if quick { &[8, 4096] } else { &[8, 48, 4096] }, &[2, 64], &modes, &[0]));
+    run_grid(&ctx, GridSpec { name: "as-sync-grid-d1".into(), cfgs, bound: 1, max_exec_per_cfg: 20_000, wall_cap_s: if quick { 28.0 } else { 1200.0 } });
+    let core: Vec<_> = sc.iter().filter(|(s, _)| s.len() <= 4).cloned().collect();
+    let mut cfgs = grid(&core, &[8], &[2, 3], &[Mode::Eager, Mode::SlowRead], &[0, 7]);
+    for mut c in grid(&core, &[4096], &[2, 64], &[Mode::Eager, Mode::Burst], &[0]) {
+        c.lane_buf = 16;
+        cfgs.push(c);
+    }
+    run_grid(&ctx, GridSpec { name: "as-sync-core-d2".into(), cfgs, bound: if quick { 2 } else { 3 }, max_exec_per_cfg: if quick { 20_000 } else { 3_000_000 }, wall_cap_s: if quick { 18.0 } else { 1200.0 } });
+    ctx.assume("tokio select! start index and HashMap iteration order are fixed per VERIF_SEED (deterministic interposer), not enumerated");
+    ctx.assume("3 keys, i32 values, at most 2 concurrent syncers");
+    ctx.finish(
+        "model_checking",
+        "deviation-bounded exhaustive schedule exploration of the real agent+runtime future with sync requests placed at every position of an update stream; per-key snapshot-window oracle at synced, convergence afterwards",
+    );
 }
